@@ -286,11 +286,19 @@ func (w *world) adversary(i int, st simcore.Step) {
 		}
 		what = fmt.Sprintf("lock %d of user %d (superfluid state %d)", rl.id, rl.owner, w.sfState(l))
 		all := []string{"sf-delegate", "sf-undelegate", "sf-unbond-lock", "sf-undelegate-and-unbond"}
+		if l.Coins[0].Denom == w.gammDenom() {
+			all = append(all, "unbond-convert-and-stake")
+		}
 		kinds := all
 		if kindSel%10 != 0 {
 			switch w.sfState(l) {
 			case 1:
 				kinds = []string{"sf-delegate"}
+				if l.Coins[0].Denom == w.gammDenom() {
+					// a plain lock of pool shares: convert-and-stake exits the pool from the SENDER's liquid shares,
+					// so an adversary holding enough shares is the interesting case
+					kinds = append(kinds, "unbond-convert-and-stake")
+				}
 			case 2:
 				kinds = []string{"sf-undelegate", "sf-undelegate-and-unbond", "sf-undelegate-and-unbond-partial"}
 				if l.Coins[0].Denom == w.gammDenom() {
@@ -299,6 +307,9 @@ func (w *world) adversary(i int, st simcore.Step) {
 			case 3:
 				if !l.IsUnlocking() {
 					kinds = []string{"sf-unbond-lock"}
+				}
+				if l.Coins[0].Denom == w.gammDenom() {
+					kinds = append(kinds, "unbond-convert-and-stake")
 				}
 			}
 		}
